@@ -31,6 +31,12 @@ CHECKS = {
     'C10': ('exhaustive enumeration of drop points x callback actions x listener iteration orders on a real EventDispatcher and World',
             'E2: k <= 3 listeners, every subset dropped between operations, full product of per-callback actions (drop / remove / immediate delete / deferred delete of any listener) x all k! orders, followed by process and further dispatches; weak references of the harness prove release',
             'CPython reference counting (immediate finalisation at refcount 0)', '3/C10'),
+    'C08': ('explicit-state BFS of a real CoroutineProcessor to quiescence/fixpoint against an independent-clock model updated online from hooks in scripted generator bodies',
+            'E1: <= 3 coroutines with every yield script of length <= 3 over {None,0,-1,0.5,1,2} (plus in-body spawns), every start point, every dt sequence over {0,0.5,1,2} until quiescence; set of bodies advanced per frame, relative order of runnable coroutines, early / late wake-ups',
+            'CPython semantics; dyadic values keep float arithmetic exact', '3/C08'),
+    'C09': ('explicit-state BFS of a real CoroutineProcessor to fixpoint over start/kill/restart/process issued from outside and from inside bodies, lifecycle state machine model, generic reachability for release',
+            'E1: fixed sets of scripted generators (runnable, waiting, finishing, killing themselves / others, starting others), every interleaving of start / kill / process / bad-argument calls to fixpoint; state(), promise value and reachability from the processor checked after every transition',
+            'CPython semantics; restart of an already returned generator from inside bodies left out (unobservable order)', '3/C09'),
 }
 
 NOT_YET = {p: 'check under construction (planned in DESIGN.md section 3); not claimed yet' for p in
